@@ -48,6 +48,23 @@ def make_items(tier, seed):
                               **({"yield": True} if mode == "thread" and rng.random() < (0.35 if tier == "quick" else 0.5) else {}),
                               "delay": {"salt": f"{seed}-{i}-{mode}", "max_ms": 3.0 if mode == "thread" else 2.0, "p": 0.5}})
                 break
+    # integer-coded tasks (discrete / binary / discrete-multi: few distinct points, coinciding agents are normal there) in
+    # pooled mode: the pool must hand back one agent per request whatever the agents look like
+    need_int = {(n, m): (1 if tier == "quick" else (6 if m == "thread" else 2)) for n in names for m in (("thread",) if tier == "quick" else ("thread", "process"))}
+    for i in idx:
+        if not need_int:
+            break
+        c = universe.case(i)
+        if tasks.kind_of_spec(c["spec"]) not in ("discrete", "binary", "discrete-multi"):
+            continue
+        for mode in ("thread", "process"):
+            k = (c["opt"], mode)
+            if k in need_int:
+                items.append({"i": i, "mode": mode, "workers": rng.choice([2, 3, 5, 8]), "delay": {"salt": f"{seed}-{i}-int", "max_ms": 1.0, "p": 0.3}})
+                need_int[k] -= 1
+                if need_int[k] == 0:
+                    del need_int[k]
+                break
     # worker-count corners for the optimizers that use the pool beyond initialisation: workers around the population size
     # (population - 1, population, population + 1) and the maximum 16, in both pooled modes
     corner_need = {(n, m): 3 if tier == "quick" else 8 for n in sorted(POOL_HEAVY) for m in ("thread", "process")}
@@ -135,7 +152,7 @@ def check(prop, tier, seed):
         if obs["outcome"] == "ok":
             rep.sample({"item": item, "optimizer": obs["opt"], "pool_ops": obs["stats"].get("pool_ops"),
                         "completion_orders": obs["stats"].get("perms")})
-    rep.rule = ("continuous-task cases of every optimizer from the audited universe, run in thread mode (1-16 workers) and "
+    rep.rule = ("continuous-task cases (plus one or more integer-coded cases) of every optimizer from the audited universe, run in thread mode (1-16 workers) and "
                 "process mode with seeded 0-3 ms delays inside the objective; oracles: membership / cost truth / best / size "
                 "on the result, futures submitted == results gathered and completion order is a permutation for every pooled "
                 "operation, every initial agent matched to an evaluation of its position, pooled greedy selection == "
